@@ -309,11 +309,11 @@ def run_case(case, ctx):
         allopts = [o for o in allopts if o[0] not in ('-h', '-SPLITBYTE')]
     configs.append((allopts, rng.choice(LOCALES), 'none'))
     # configuration 1: a listing with parts of it masked out (+t clears mask bits, -t sets them)
-    configs.append(([['-L'], ['+t', str(rng.choice([32, 63, 255, rng.randrange(1, 256), 1 << rng.randrange(8)]))]], None, 'none'))
+    configs.append(([['-L'], ['+t', str(rng.choice([32, 63, 255, rng.randrange(1, 256), 1 << rng.randrange(8)]))]], rng.choice(LOCALES), rng.choice(VARIATIONS)))
     # configuration 2: ONE report option all by itself (other options may mask its side effects), rotating over the list
     solo_opt = REPORT_OPTS[(ctx.idx * 7 + ctx.seed) % len(REPORT_OPTS)]
     if not (b'\\{' in all_src and solo_opt in STRINGIFY_SENSITIVE):
-        configs.append(([solo_opt], None, 'none'))
+        configs.append(([solo_opt], None, rng.choice(['none', 'cwd-parent', 'otherdir', 'outpath'])))
     for ci in range(max(0, case['k'] - 3)):
         nopt = rng.choice([1, 2, 3, 4, 6])
         opts = rng.sample(REPORT_OPTS, nopt)
